@@ -31,6 +31,7 @@ import (
 
 	"github.com/ollama/ollama/api"
 	"github.com/ollama/ollama/discover"
+	"github.com/ollama/ollama/envconfig"
 	"github.com/ollama/ollama/fs/ggml"
 	"github.com/ollama/ollama/llm"
 	"github.com/ollama/ollama/types/model"
@@ -51,7 +52,12 @@ type vsModel struct {
 	Edge bool   `json:"edge"` // VRAM := total - (free memory in which the blocks of a model fit but not its output layer)
 	// with edge: VRAM := total - (free memory in which a model fits completely with one slot but not with edge_par slots)
 	EdgePar int `json:"edge_par"`
-	Bad  bool   `json:"bad"`  // model file does not exist (direct mode only)
+	// with edge + edge_par: the same window for CPU inference (system memory: TotalSize with one slot <= free < with edge_par slots)
+	EdgeCPU bool `json:"edge_cpu"`
+	// with edge: VRAM := total - (free memory in which a model fits completely with a KV cache of this quantised type but not with f16)
+	EdgeKV string `json:"edge_kv"`
+	NoFA   bool   `json:"nofa"` // the model file carries a pooling_type: it cannot use flash attention
+	Bad    bool   `json:"bad"`  // model file does not exist (direct mode only)
 }
 
 type vsReq struct {
@@ -99,6 +105,11 @@ type vsCase struct {
 	Passive bool `json:"passive"`
 	// probability of cancelling an unanswered request while the pending loop is between needsReload and the hand-over
 	CancelHot float64 `json:"cancel_hot"`
+	// a request is only submitted when every earlier one has finished and nothing is loaded (load / unload cycles)
+	Sequential bool    `json:"sequential"`
+	ExpireW    float64 `json:"expire_w"` // weight of the explicit-unload action (default 0.6, at most 3 per run; with a weight: 6)
+	FA         bool    `json:"fa"`       // OLLAMA_FLASH_ATTENTION=1
+	KVType     string  `json:"kv_type"`  // OLLAMA_KV_CACHE_TYPE
 }
 
 type vsStep struct {
@@ -229,13 +240,13 @@ func (r *vsRun) ev(a ...any) {
 	r.mu.Unlock()
 }
 
-func vsWriteModel(path string) error {
+func vsWriteModel(path string, nofa bool) error {
 	f, err := os.Create(path)
 	if err != nil {
 		return err
 	}
 	defer f.Close()
-	return ggml.WriteGGUF(f, ggml.KV{
+	kv := ggml.KV{
 		"general.architecture":          "llama",
 		"llama.context_length":          uint32(32),
 		"llama.embedding_length":        uint32(4096),
@@ -245,7 +256,11 @@ func vsWriteModel(path string) error {
 		"tokenizer.ggml.tokens":         []string{" "},
 		"tokenizer.ggml.scores":         []float32{0},
 		"tokenizer.ggml.token_type":     []int32{0},
-	}, []ggml.Tensor{
+	}
+	if nofa {
+		kv["llama.pooling_type"] = uint32(1)
+	}
+	return ggml.WriteGGUF(f, kv, []ggml.Tensor{
 		{Name: "blk.0.attn.weight", Kind: uint32(0), Offset: uint64(0), Shape: []uint64{1, 1, 1, 1}, WriterTo: bytes.NewReader(make([]byte, 32))},
 		{Name: "output.weight", Kind: uint32(0), Offset: uint64(0), Shape: []uint64{1, 1, 1, 1}, WriterTo: bytes.NewReader(make([]byte, 32))},
 	})
@@ -257,10 +272,24 @@ func (r *vsRun) gpuList(kind string) discover.GpuInfoList {
 		x := discover.GpuInfo{Library: g.Lib, ID: g.ID}
 		x.TotalMemory = g.Total
 		x.FreeMemory = g.Free
+		if g.Lib == "cuda" {
+			x.DriverMajor = 12
+		}
 		return x
 	}
 	if kind == "cpu" {
-		return discover.GpuInfoList{mk(r.c.Cpu)}
+		// system memory in use by the CPU runners that are running
+		x := mk(r.c.Cpu)
+		for _, m := range r.srvs {
+			if m.closed == 0 && len(m.gpus) == 1 && m.gpus[0] == r.c.Cpu.ID {
+				if m.vram >= x.FreeMemory {
+					x.FreeMemory = 0
+				} else {
+					x.FreeMemory -= m.vram
+				}
+			}
+		}
+		return discover.GpuInfoList{x}
 	}
 	var out discover.GpuInfoList
 	for _, g := range r.c.Gpus {
@@ -287,7 +316,27 @@ func (r *vsRun) newServer(gpus discover.GpuInfoList, model string, f *ggml.GGML,
 	// the property's own reading of "predicted to fit": every layer incl. the output layer is placed on the GPUs
 	// the runner is started on, computed from the memory estimate independently of llm.PredictServerFit
 	fit := 1
-	if f != nil && len(gpus) > 0 && gpus[0].Library != "cpu" {
+	// the KV cache type the server is really started with (llm.NewLlamaServer): quantised only with flash attention,
+	// which needs the setting, GPUs that support it and a model that can use it
+	faReally := envconfig.FlashAttention() && gpus.FlashAttentionSupported()
+	if f != nil {
+		if _, emb := f.KV()[f.KV().Architecture()+".pooling_type"]; emb {
+			faReally = false
+		}
+		if f.KV().EmbeddingHeadCountK() == 0 || f.KV().EmbeddingHeadCountK() != f.KV().EmbeddingHeadCountV() {
+			faReally = false
+		}
+	}
+	if envconfig.FlashAttention() && !faReally {
+		os.Setenv("OLLAMA_FLASH_ATTENTION", "0")
+		defer os.Setenv("OLLAMA_FLASH_ATTENTION", "1")
+	}
+	if f != nil && len(gpus) == 1 && gpus[0].Library == "cpu" {
+		est := llm.EstimateGPULayers(gpus, f, projectors, opts, numParallel)
+		if est.TotalSize > gpus[0].FreeMemory {
+			fit = 0
+		}
+	} else if f != nil && len(gpus) > 0 && gpus[0].Library != "cpu" {
 		est := llm.EstimateGPULayers(gpus, f, projectors, opts, numParallel)
 		need := int(f.KV().BlockCount()) + 1
 		if opts.NumGPU >= 0 {
@@ -697,6 +746,17 @@ func (r *vsRun) randomChoice() (vsChoice, bool) {
 	var w []float64
 	for q, rs := range r.reqs {
 		if !rs.submitted {
+			if c.Sequential {
+				busy := len(r.s.loaded) > 0
+				for _, o := range r.reqs {
+					if o.submitted && !o.cancelled {
+						busy = true
+					}
+				}
+				if busy {
+					break
+				}
+			}
 			env = append(env, vsChoice{A: "submit", Q: q})
 			w = append(w, 4)
 			break
@@ -712,9 +772,13 @@ func (r *vsRun) randomChoice() (vsChoice, bool) {
 			}
 		}
 	}
-	if r.apis < 3 && !c.Passive {
+	napi, wapi := 3, 0.6
+	if c.ExpireW > 0 {
+		napi, wapi = 6, c.ExpireW
+	}
+	if r.apis < napi && !c.Passive {
 		env = append(env, vsChoice{A: "expire", M: r.rng.Intn(len(r.models))})
-		w = append(w, 0.6)
+		w = append(w, wapi)
 	}
 	if r.ticks < 12 {
 		ds := []int64{1, 5, 10, 10, 250, 1000, 300000}
@@ -898,6 +962,14 @@ func vsRunCase(dir string, c *vsCase) (obs *vsObs) {
 	os.Setenv("OLLAMA_NUM_PARALLEL", strconv.Itoa(c.Par))
 	os.Unsetenv("OLLAMA_KEEP_ALIVE")
 	os.Unsetenv("OLLAMA_SCHED_SPREAD")
+	os.Unsetenv("OLLAMA_FLASH_ATTENTION")
+	os.Unsetenv("OLLAMA_KV_CACHE_TYPE")
+	if c.FA {
+		os.Setenv("OLLAMA_FLASH_ATTENTION", "1")
+	}
+	if c.KVType != "" {
+		os.Setenv("OLLAMA_KV_CACHE_TYPE", c.KVType)
+	}
 	synctest.Run(func() {
 		r := &vsRun{c: c, dir: dir, waitCtx: map[*vhG]context.Context{}, ptr2rid: map[*runnerRef]int{}, rng: rand.New(rand.NewSource(c.Seed)), quit: make(chan struct{}), obs: obs}
 		for k, m := range c.Models {
@@ -915,7 +987,7 @@ func vsRunCase(dir string, c *vsCase) (obs *vsObs) {
 			if m.Bad {
 				p = filepath.Join(dir, "missing-"+m.Name)
 			} else if _, err := os.Stat(p); err != nil {
-				if err := vsWriteModel(p); err != nil {
+				if err := vsWriteModel(p, m.NoFA); err != nil {
 					panic(err)
 				}
 			}
@@ -926,9 +998,15 @@ func vsRunCase(dir string, c *vsCase) (obs *vsObs) {
 		for k := range c.Models {
 			if c.Models[k].Edge && len(c.Gpus) > 0 && !c.Models[k].Bad {
 				if obs.EdgeFree == 0 {
-					obs.EdgeFree = vsEdgeFree(r.models[k].ModelPath, c.Gpus[0], c.Par, c.Models[k].EdgePar)
+					g := c.Gpus[0]
+					if c.Models[k].EdgeCPU {
+						g = c.Cpu
+					}
+					obs.EdgeFree = vsEdgeFree(r.models[k].ModelPath, g, c.Par, c.Models[k])
 				}
-				if obs.EdgeFree > 0 {
+				if obs.EdgeFree > 0 && c.Models[k].EdgeCPU {
+					c.Models[k].VRAM = c.Cpu.Free - obs.EdgeFree
+				} else if obs.EdgeFree > 0 {
 					c.Models[k].VRAM = c.Gpus[0].Total - obs.EdgeFree
 				}
 			}
@@ -944,9 +1022,10 @@ func vsRunCase(dir string, c *vsCase) (obs *vsObs) {
 		// The three internal event queues get room for every event a bounded history can produce, so that only
 		// the pending queue (the one the property talks about) can be full; in production all four have
 		// OLLAMA_MAX_QUEUE (512) slots.
+		// unloadedCh keeps the OLLAMA_MAX_QUEUE slots InitScheduler gave it: its only consumers are the pending loop's
+		// idle arm and its wait for an eviction, so a producer that outruns them must show.
 		s.finishedReqCh = make(chan *LlmRequest, 64)
 		s.expiredCh = make(chan *runnerRef, 64)
-		s.unloadedCh = make(chan any, 64)
 		s.getGpuFn = func() discover.GpuInfoList { return r.gpuList("gpu") }
 		s.getCpuFn = func() discover.GpuInfoList { return r.gpuList("cpu") }
 		s.newServerFn = r.newServer
@@ -1028,7 +1107,8 @@ func vsRunCase(dir string, c *vsCase) (obs *vsObs) {
 // the GPU but not its output layer (0 if there is no such value).
 // With edgePar > 1: a value for which the model fits completely with one slot (context 2048) but not with edgePar
 // slots (context edgePar x 2048).
-func vsEdgeFree(path string, g vsGpu, par int, edgePar int) uint64 {
+func vsEdgeFree(path string, g vsGpu, par int, m vsModel) uint64 {
+	edgePar := m.EdgePar
 	f, err := llm.LoadModel(path, 0)
 	if err != nil {
 		return 0
@@ -1063,6 +1143,34 @@ func vsEdgeFree(path string, g vsGpu, par int, edgePar int) uint64 {
 	a, b := first(blocks, par), first(blocks+1, par)
 	if edgePar > 1 {
 		a, b = first(blocks+1, 1), first(blocks+1, edgePar)
+	}
+	if m.EdgeCPU && edgePar > 1 {
+		total := func(p int) uint64 {
+			opts := api.DefaultOptions()
+			opts.NumCtx = 2048 * p
+			x := discover.GpuInfo{Library: g.Lib, ID: g.ID}
+			x.TotalMemory = g.Total
+			x.FreeMemory = g.Free
+			return llm.EstimateGPULayers([]discover.GpuInfo{x}, f, nil, opts, p).TotalSize
+		}
+		a, b = total(1), total(edgePar)
+	}
+	if m.EdgeKV != "" {
+		// least memory for a complete fit with the f16 cache, minus half of what the quantised cache would save
+		opts := api.DefaultOptions()
+		kv16, _, _ := f.GraphSize(uint64(2048*par), uint64(min(2048*par, opts.NumBatch)), par, "f16")
+		kvq, _, _ := f.GraphSize(uint64(2048*par), uint64(min(2048*par, opts.NumBatch)), par, m.EdgeKV)
+		var d uint64
+		for i := range kv16 {
+			if i < len(kvq) && kv16[i] > kvq[i] {
+				d += kv16[i] - kvq[i]
+			}
+		}
+		full := first(blocks+1, par)
+		if full == 0 || d < 4 || full <= d {
+			return 0
+		}
+		a, b = full-d, full
 	}
 	if a == 0 || b == 0 || a >= b {
 		return 0
